@@ -8,7 +8,11 @@ the forward progress p and backward jump j that happen just before it, per sleep
 per cycle the work (p, j) the doer's recur does to the clock.
 
   case = {"t0": float, "tock0": float, "reads": [[p, j], ...], "overs": [o, ...],
-          "runs": [{"pre": [p, j], "tock": float | None, "works": [[p, j], ...]}, ...], "exact": bool}
+          "runs": [{"pre": [p, j], "tock": float | None, "works": [[p, j], ...], "sets": [float | None, ...]}, ...],
+          "exact": bool}
+
+"sets" (optional): entry k is assigned to doist.tock by the doer in the recur of cycle k, i.e. while the run is
+under way; the oracle always judges a run by the tock the Doist had when do()/ado() was called.
 
 "mode": "ado" (optional) drives asyncio.run(doist.ado()) instead: hio.base.doing.asyncio and hio.help.timing.asyncio
 are rebound to an object whose get_event_loop().time() is the scripted clock and whose sleep() coroutine moves
@@ -28,7 +32,7 @@ COQ_CASE_TYPE = "RealTime.case"
 COQ_BRANCHES = ("RealTime.case_branches", "RealTime.n_branches")
 SHARD = 150
 RULE = ("sessions of 1-3 Doist(real=True).do() runs (two thirds of the cases) or asyncio.run(doist.ado()) runs (one third; fake loop clock, no backward steps) of 1-12 cycles under a scripted clock: tock 0..4 s set at construction "
-        "and/or reassigned before a run; per cycle work shorter or longer than the tock (lateness), per sleep an overshoot "
+        "and/or reassigned before a run, and in 45% of the runs of >= 2 cycles assigned by a doer while the run is under way (smaller or larger; must not change the pace); per cycle work shorter or longer than the tock (lateness), per sleep an overshoot "
         "(mostly 0, sometimes several tocks) or an early return, per clock read forward progress and/or a backward jump (small, or hours), clock "
         "steps between construction and run and between runs; a dyadic stream (all float arithmetic exact, oracle with zero "
         "tolerance) and a non-dyadic stream (0.1, 1/3, uniform randoms; bit-exact correspondence, oracle tolerance a few ulp of the clock magnitude per operation); "
@@ -170,6 +174,7 @@ def _run_ado(case):
                 doist.tock = r["tock"]
             tock = doist.tock
             works = [tuple(map(float, w)) for w in r["works"]]
+            sets = list(r.get("sets") or [])
             rec = {"cycles": [], "log0": None}
 
             class Pacer(doing.Doer):
@@ -183,6 +188,8 @@ def _run_ado(case):
                     clk.run_sleeps = 0
                     p, j = works[self.count]
                     clk.advance(p, j)
+                    if self.count < len(sets) and sets[self.count] is not None:
+                        doist.tock = sets[self.count]     # a doer changes the scheduler's tock while the run is under way
                     self.count += 1
                     return self.count >= len(works)
 
@@ -223,6 +230,7 @@ def _run_do(case):
                 doist.tock = r["tock"]
             tock = doist.tock
             works = [tuple(map(float, w)) for w in r["works"]]
+            sets = list(r.get("sets") or [])
             rec = {"cycles": [], "log0": None}
 
             class Pacer(doing.Doer):
@@ -236,6 +244,8 @@ def _run_do(case):
                     clk.run_sleeps = 0
                     p, j = works[self.count]
                     clk.advance(p, j)
+                    if self.count < len(sets) and sets[self.count] is not None:
+                        doist.tock = sets[self.count]     # a doer changes the scheduler's tock while the run is under way
                     self.count += 1
                     return self.count >= len(works)
 
@@ -306,8 +316,11 @@ def oracle(case, obs):
 
 # --------------------------------------------------------------------------- cases
 
-def _run(works, pre=(0.0, 0.0), tock=None):
-    return {"pre": list(pre), "tock": tock, "works": [list(w) for w in works]}
+def _run(works, pre=(0.0, 0.0), tock=None, sets=None):
+    r = {"pre": list(pre), "tock": tock, "works": [list(w) for w in works]}
+    if sets:
+        r["sets"] = list(sets)
+    return r
 
 
 def _case(t0, tock0, runs, reads=(), overs=(), exact=True, mode="do"):
@@ -356,6 +369,14 @@ def directed():
         _case(10.0, -0.5, [_run([Z] * 3), _run([Z] * 3, tock=-1.0)]),
         # stalled clock (no work, no overshoot) and default tock
         _case(0.0, 0.03125, [_run([Z] * 8)]),
+        # a doer assigns doist.tock while the run is under way: smaller (the run must not speed up), larger, and
+        # the next run starts with the assigned value
+        _case(1000.0, 1.0, [_run([w(0.125)] * 8, sets=[None, None, 0.125])], overs=[0.0, 0.03125, 0.0, 0.03125]),
+        _case(1000.0, 0.5, [_run([Z] * 6, sets=[None, 2.0, None, 0.25])]),
+        _case(1000.0, 1.0, [_run([Z] * 4, sets=[None, 0.25]), _run([Z] * 4), _run([Z] * 3, tock=0.5, sets=[4.0, None, 0.125])]),
+        _case(50.0, 1.0, [_run([w(0.125)] * 8, sets=[None, None, 0.125])], mode="ado"),
+        _case(50.0, 0.5, [_run([Z] * 5, sets=[None, 2.0, None, 0.25]), _run([Z] * 3)], mode="ado"),
+        _case(0.1, 0.1, [_run([(0.01, 0.0)] * 10, sets=[None, None, 0.01])], overs=[0.003] * 10, exact=False),
         # ---- asyncio.run(doist.ado()): AsyncTimer over the loop clock (monotonic: no backward steps)
         _case(50.0, 1.0, [_run([w(0.125)] * 5)], mode="ado"),
         _case(50.0, 0.5, [_run([Z] * 5, tock=2.0)], mode="ado"),                       # tock reassigned before ado()
@@ -426,7 +447,19 @@ def _gen_case(rng, exact, ado=False):
             if flavour in ("retro", "mixed") and rng.random() < 0.15:
                 j = val(rng.choice([span / 2, span * 3, 3600.0]))
             works.append([p, j])
-        runs.append({"pre": pre, "tock": newtock, "works": works})
+        run = {"pre": pre, "tock": newtock, "works": works}
+        if n >= 2 and rng.random() < 0.45:
+            sets = [None] * n
+            for _ in range(rng.choice([1, 1, 2])):
+                k = rng.randrange(0, n - 1)
+                if exact:
+                    sets[k] = rng.choice([tock / 8, tock / 4, tock / 2, tock * 2, tock * 4, 0.0, 0.015625, 1.0])
+                else:
+                    sets[k] = rng.choice([tock / 10, tock / 3, tock * 1.7, tock * 3, 0.01, rng.uniform(0.001, 2.0)])
+            run["sets"] = sets
+            last = [x for x in sets if x is not None]
+            tock = abs(last[-1]) if last else tock
+        runs.append(run)
     span = max(tock, 0.0625)
     # per-read script: mostly nothing happens between two reads
     nreads = 3 + 4 * ncyc
@@ -484,8 +517,9 @@ def _slp(o):
 
 def to_coq(case, obs):
     runs = coq_list(
-        ["{| RealTime.i_pre := %s; RealTime.i_tock := %s; RealTime.i_works := %s |}" % (
-            _pair(r["pre"]), coq_option(r["tock"], _fl, "float"), coq_list([_pair(w) for w in r["works"]], "float * float"))
+        ["{| RealTime.i_pre := %s; RealTime.i_tock := %s; RealTime.i_works := %s; RealTime.i_sets := %s |}" % (
+            _pair(r["pre"]), coq_option(r["tock"], _fl, "float"), coq_list([_pair(w) for w in r["works"]], "float * float"),
+            coq_list([coq_option(x, _fl, "float") for x in (r.get("sets") or [])], "option float"))
          for r in case["runs"]], "@RealTime.run_in float")
     outs = []
     for o in obs["runs"]:
@@ -535,6 +569,8 @@ def shrink(case):
                     yield dict(case, runs=runs[:i] + [dict(r, works=ws)] + runs[i + 1:])
         if r["pre"] != [0.0, 0.0]:
             yield dict(case, runs=runs[:i] + [dict(r, pre=[0.0, 0.0])] + runs[i + 1:])
+        if r.get("sets"):
+            yield dict(case, runs=runs[:i] + [{k: v for k, v in r.items() if k != "sets"}] + runs[i + 1:])
     if case["reads"]:
         yield dict(case, reads=[])
         for k, x in enumerate(case["reads"]):
@@ -551,7 +587,7 @@ def shrink(case):
 
 def distribution(cases, obs):
     d = {"cases": len(cases), "ado_cases": sum(1 for c in cases if c.get("mode") == "ado"), "exact": 0, "cycles": 0, "cycles_no_wait": 0, "cycles_multi_sleep": 0, "runs_with_retro_reading": 0,
-         "runs": 0, "runs_tock_reassigned": 0, "runs_pre_step_back": 0, "sleep_calls": 0}
+         "runs": 0, "runs_tock_set_by_doer_midrun": 0, "runs_tock_reassigned": 0, "runs_pre_step_back": 0, "sleep_calls": 0}
     for c, o in zip(cases, obs):
         if not isinstance(o, dict) or "runs" not in o:
             continue
@@ -559,6 +595,7 @@ def distribution(cases, obs):
         for r, ro in zip(c["runs"], o["runs"]):
             d["runs"] += 1
             d["runs_tock_reassigned"] += r["tock"] is not None
+            d["runs_tock_set_by_doer_midrun"] += any(x is not None for x in (r.get("sets") or []))
             d["runs_pre_step_back"] += r["pre"][1] > 0
             rd = [float.fromhex(x) for x in ro["readings"]]
             d["runs_with_retro_reading"] += any(b < a for a, b in zip(rd, rd[1:]))
